@@ -3,9 +3,14 @@
 package rib
 
 import (
+	"sync"
+
 	"github.com/openconfig/gribigo/aft"
 	"github.com/openconfig/gribigo/constants"
 	"github.com/openconfig/ygot/ygot"
+
+	aftpb "github.com/openconfig/gribi/v1/proto/gribi_aft"
+	spb "github.com/openconfig/gribi/v1/proto/service"
 )
 
 func init() {
@@ -15,6 +20,7 @@ func init() {
 	vfRegister("VfC16_flush", VfC16_flush)
 	vfRegister("VfC16_resolved", VfC16_resolved)
 	vfRegister("VfC16_resolvedCascade", VfC16_resolvedCascade)
+	vfRegister("VfC16_hookVsNewInstance", VfC16_hookVsNewInstance)
 }
 
 // vfMirror folds post-change notifications: ADD carries the new entry, DELETE the removed one.
@@ -168,6 +174,40 @@ func VfC16_mirror_q1() {
 
 func VfC16_mirror_t() {
 	vfMirrorRun(vfRunCfg{pre: vfPreCfg{nNH: 1, nNHG: 1, nTop: 1, members: 1, topKinds: vfTopAll}, rich: true, fixLow: true, steps: 1, members: 2})
+}
+
+// VfC16_hookVsNewInstance: the consumer registers its hook WHILE a network instance is being created (two
+// goroutines, every schedule with up to 2 pre-emptions at synchronisation points): whichever comes first, a
+// change in the new instance afterwards reaches the consumer.
+func VfC16_hookVsNewInstance() {
+	r := New("DEFAULT")
+	n := 0
+	lateNI := ""
+	hook := func(o constants.OpType, ts int64, ni string, e ygot.ValidatedGoStruct) {
+		n++
+		lateNI = ni
+	}
+	var wg sync.WaitGroup
+	wg.Add(2)
+	vfSched(2)
+	go func() {
+		defer wg.Done()
+		r.SetPostChangeHook(hook)
+	}()
+	go func() {
+		defer wg.Done()
+		if err := r.AddNetworkInstance("VRF-LATE"); err != nil {
+			panic(err)
+		}
+	}()
+	wg.Wait()
+	vfSched(0)
+	op := &spb.AFTOperation{Id: 1, NetworkInstance: "VRF-LATE", Op: spb.AFTOperation_ADD,
+		Entry: &spb.AFTOperation_NextHop{NextHop: &aftpb.Afts_NextHopKey{Index: vfU64("nh"), NextHop: &aftpb.Afts_NextHop{}}}}
+	oks, _, err := r.AddEntry("VRF-LATE", op)
+	vfAssume(err == nil && len(oks) == 1)
+	vfAssert(n == 1 && lateNI == "VRF-LATE", "C16:instance-created-during-hook-registration-notifies")
+	vfReach("end")
 }
 
 // VfC16_flush: notifications issued by Flush.
